@@ -342,6 +342,8 @@ func (c *clientImpl) doMultiShardGet(key string, options *getOptions, ch chan Ge
 					ch <- toGetResult(nil, key, err)
 					close(ch)
 					counter = 0
+					// The result was delivered: the responses of the other shards must be ignored
+					return
 				}
 
 				selected = selectResponse(options.comparisonType, selected, response)
